@@ -72,10 +72,73 @@ func c14Case(c *core.Ctx, idx int) {
 		rec.Violation("valid-type-rejected", fmt.Sprintf("[%s] %v\n  type %s", tc.name, err, typeString(tc.typ)), nil)
 		return
 	}
+	want := tc.cfg.Describe(tc.typ, "")
+	// the very first use of the type on an instance, at the moment other goroutines ask the same
+	// instance for the types of its parts (fields, elements, keys, values, with their tag options):
+	// whoever wins which race, the descriptor mirrors the definition (round 12: k14)
+	if idx%4 == 2 && tc.typ.Kind() == reflect.Struct {
+		var subs []subType
+		collectSubTypes(tc.typ, "", map[subType]bool{}, &subs)
+		r := c.RandFor(idx, "first-use")
+		prev := c07YieldMode
+		for trial := 0; trial < 4 && len(subs) > 1; trial++ {
+			p2 := instNew(tc.cfg)
+			g := 2 + r.IntN(3)
+			asks := make([][]subType, g)
+			for w := 1; w < g; w++ {
+				for k := 0; k < 1+r.IntN(4); k++ {
+					asks[w] = append(asks[w], subs[r.IntN(len(subs))])
+				}
+			}
+			var dd plenccodec.Descriptor
+			var derr error
+			var dpn string
+			c07YieldMode = 1
+			var wg sync.WaitGroup
+			start := make(chan struct{})
+			for w := 0; w < g; w++ {
+				wg.Add(1)
+				go func(w int) {
+					defer wg.Done()
+					<-start
+					if w == 0 {
+						dpn = core.Guard(func() {
+							var cd plenccodec.Codec
+							if cd, derr = p2.CodecForType(tc.typ); derr == nil {
+								dd = cd.Descriptor()
+							}
+						})
+						return
+					}
+					for _, st := range asks[w] {
+						core.Guard(func() { p2.CodecForTypeWithTag(st.t, st.opt) })
+					}
+				}(w)
+			}
+			close(start)
+			wg.Wait()
+			c07YieldMode = prev
+			rec.Eval(1)
+			rec.Count("first_uses_beside_requests_for_parts", 1)
+			if derr != nil || dpn != "" {
+				rec.Violation("descriptor", fmt.Sprintf("first use of the type while %d other goroutines ask for its parts [%s]: %v %s\n  type %s", g-1, tc.name, derr, trunc1(dpn), typeString(tc.typ)), map[string]any{"type": typeString(tc.typ)})
+				return
+			}
+			var later plenccodec.Descriptor
+			if cd, err := p2.CodecForType(tc.typ); err == nil {
+				later = cd.Descriptor()
+			}
+			for which, d := range map[string]*plenccodec.Descriptor{"the first caller's": &dd, "a later caller's": &later} {
+				if diff := model.DescDiff(want, realDesc{d}, "$", true); diff != "" {
+					rec.Violation("descriptor", fmt.Sprintf("first use of the type while %d other goroutines ask the instance for its parts: %s descriptor does not mirror the type [%s]: %s\n  type %s", g-1, which, tc.name, diff, typeString(tc.typ)), map[string]any{"type": typeString(tc.typ)})
+					return
+				}
+			}
+		}
+	}
 	// descriptors are asked for by whoever needs the schema: several goroutines at once, through the
 	// one codec the instance shares, must each get the whole descriptor - in a quarter of the cases
 	// before anybody has asked for it, so that the very first descriptions overlap
-	want := tc.cfg.Describe(tc.typ, "")
 	if idx%3 == 1 {
 		const g, reps = 4, 6
 		var wg sync.WaitGroup
@@ -452,8 +515,9 @@ func init() {
 	core.Register(&core.Prop{
 		ID:        "C14",
 		Technique: "structural comparison of the real Codec.Descriptor() with a descriptor derived independently from the reflect.Type, for every generated type and each of its tagged sub-types",
-		Rule:      "generated and library types with a finite descriptor (all options, json tags incl. \",omitempty\", \"-\", unicode names, skipped and unexported fields, null.*, JSON any, BigQuery time, named scalars and containers) in the four configurations; index, name rule, field type, struct type name, explicit presence, logical types, order and count are compared recursively; a second instance with another time codec describes the same type; every third case 4 goroutines call Descriptor() on the shared codec at once; one copy of every Descriptor is rewritten by the caller at every level and another is decoded into, the next one must be unchanged. distinct = distinct (type, configuration) pairs with more than two descriptor nodes",
+		Rule:      "generated and library types with a finite descriptor (all options, json tags incl. \",omitempty\", \"-\", unicode names, skipped and unexported fields, null.*, JSON any, BigQuery time, named scalars and containers) in the four configurations; index, name rule, field type, struct type name, explicit presence, logical types, order and count are compared recursively; a second instance with another time codec describes the same type; every fourth struct type is used for the first time on four new instances while 1-3 other goroutines ask the instance for the types of its parts; every third case 4 goroutines call Descriptor() on the shared codec at once; one copy of every Descriptor is rewritten by the caller at every level and another is decoded into, the next one must be unchanged. distinct = distinct (type, configuration) pairs with more than two descriptor nodes",
 		Assume:    []string{"recursive types are excluded: Descriptor() does not terminate on them (known finding D20)", "the free-form TypeName of map-entry pseudo-structs is not part of the statement and is not compared"},
+		Setup:     func(c *core.Ctx) { plenccodec.SetVerifYield(c07Hook) },
 		Plan: func(tier string) []core.Lane {
 			if tier == "thorough" {
 				return []core.Lane{{Lane: "plain", Cases: 6000000, Shards: 16, TimeoutS: 3600}}
